@@ -90,6 +90,10 @@ class Gen:
         if r.random() < 0.05:
             # ... or like a value placeholder: the value sent with the request is what ":v" means, not this attribute
             it[r.choice([":v", ":n", ":w", ":h", ":r", ":a"])] = r.choice([S(r.choice(IDXVALS)), N(r.choice(NUMS)), S(r.choice(HASHES))])
+        if r.random() < 0.08:
+            # an attribute whose own name contains a dot, reached through a name placeholder (no attribute "dd" exists, so the
+            # reading of the name as a document path - known finding - does not come into play)
+            it["dd.y"] = S(r.choice(IDXVALS))
         if r.random() < 0.06:
             # empty containers among the attributes (also nested): they are values like any other
             it[r.choice(["e", "m"])] = r.choice([{"M": {}}, {"L": []}, {"M": {"in": {"M": {}}}}, {"L": [{"M": {}}]}])
@@ -166,6 +170,7 @@ class Gen:
             ("contains(ss, :v)", {}, {":v": S(r.choice(["p", "q"]))}),
             ("contains(s, :v)", {}, {":v": S("ell")}),
             ("NOT (g = :v)", {}, {":v": S(v)}), ("NOT g = :v", {}, {":v": S(v)}),
+            ("#d = :v", {"#d": "dd.y"}, {":v": S(v)}), ("attribute_not_exists(#d)", {"#d": "dd.y"}, {}), ("#d <> :v AND attribute_exists(#d)", {"#d": "dd.y"}, {":v": S(v)}),
             ("g IN (f, :v)", {}, {":v": S(v)}), ("zq IN (nope, :v)", {}, {":v": S(v)}), ("zq IN (nope)", {}, {}), ("f IN (zq, g)", {}, {}),
             ("n IN (:z, :n)", {}, {":z": N(r.choice(["-0", "0", "0.0"])), ":n": N(n1)}), ("contains(l, :z)", {}, {":z": N(r.choice(["-0", "0", "1.0", "1"]))}),
             ("NOT g = :v AND attribute_exists(f)", {}, {":v": S(v)}), ("attribute_exists(h) AND NOT g = :v AND f = :w", {}, {":v": S(v), ":w": S(w)}),
@@ -272,7 +277,7 @@ class Gen:
         """one data operation on a (usually existing) table; may reference earlier LastEvaluatedKeys"""
         r = self.r
         t = r.choice(tabs)
-        name = t["name"] if r.random() < 0.96 else "nope"
+        name = t["name"] if r.random() < 0.96 else r.choice(["nope", "nope", "t"])     # "t": refused by the SDK v1 request validation only
         k = r.random()
         base = dict(client=client, table=name)
         if k < 0.28:
@@ -383,6 +388,14 @@ class Gen:
             elif k < 0.91:
                 ops.append(dict(op=r.choice(["emulate_failure"]), client=c, cond=r.choice(["internal_server", "deprecated", "none", "bogus"])))
                 ops += self.data_op(c, tabs[c], len(ops))
+                if r.random() < 0.5:
+                    # a request that the SDK v1 request validation refuses (table name of one character), while the failure is on:
+                    # the failure is what both clients answer
+                    kk = self.key_of(tabs[c][0]["schema"])
+                    ops += r.sample([dict(op="get", client=c, table="t", key=kk), dict(op="put", client=c, table="t", item=kk),
+                                     dict(op="delete", client=c, table="t", key=kk), dict(op="scan", client=c, table="t"),
+                                     dict(op="query", client=c, table="t", keycond="h = :h", names={}, values={":h": S("a")}),
+                                     dict(op="update", client=c, table="t", key=kk, expr="SET v = :v", names={}, values={":v": S("x")})], 3)
                 if r.random() < 0.8: ops.append(dict(op="deactivate_force_failure", client=c))
             elif k < 0.93:
                 t = r.choice(tabs[c])
